@@ -2,7 +2,7 @@
    Part 1 (catalog gates) is proved here; part 2 (converters) is translation validation per instance in
    harness/props/c20.py with the amplitude specification [amp_num] evaluated by the extracted model. *)
 From Coq Require Import Reals.
-From PV Require Import Model.Catalog Proofs.TrigInst Proofs.CatalogP Proofs.CatalogRotP.
+From PV Require Import Model.Catalog Proofs.TrigInst Proofs.CatalogP Proofs.CatalogRotP Proofs.CatalogRotAllP.
 
 (* [gate_spec g G f]: on the dual-rail basis (finite: 2^q inputs, all states of the (m, n) output space)
      - every logical amplitude is f * G[b', b] with the same f for every input,
@@ -146,3 +146,25 @@ Theorem C20_crot_phase : forall (R : cring) (a e : R) n,
   kpow a n = ksub e k1 -> M_crot n a (2 ^ n - 1)%nat (2 ^ n - 1)%nat = e.
 Proof. exact crot_phase. Qed.
 Print Assumptions C20_crot_phase.
+
+(* n-qubit controlled rotation, EVERY n >= 2 (Proofs/CatalogRotAllP.v: Laplace expansion along the column of qubit 0,
+   the two surviving minors are triangular): perm = [b = b'] + [b = b' = 1...1] a^n *)
+Theorem C20_crot_all_n : forall (R : cring) (a : R) n b b', (2 <= n)%nat -> (b < 2 ^ n)%nat -> (b' < 2 ^ n)%nat ->
+  lamp (crot_block n a) (2 * n) n [] b b' = M_crot n a b' b.
+Proof. exact crot_logical_all_n. Qed.
+Print Assumptions C20_crot_all_n.
+(* the implementation's block is M / sigma_max: one scalar s on every entry gives the uniform factor s^n *)
+Theorem C20_crot_scaled_all_n : forall (R : cring) (s a : R) n b b', (2 <= n)%nat -> (b < 2 ^ n)%nat -> (b' < 2 ^ n)%nat ->
+  lamp (fun j k => kmul s (crot_block n a j k)) (2 * n) n [] b b' = kmul (kpow s n) (M_crot n a b' b).
+Proof. exact crot_logical_scaled_all_n. Qed.
+Print Assumptions C20_crot_scaled_all_n.
+(* a^n = e - 1: the all-ones basis state picks up exactly e, every other basis state is fixed *)
+Theorem C20_crot_rotation_all_n : forall (R : cring) (a e : R) n, (2 <= n)%nat -> kpow a n = ksub e k1 ->
+  lamp (crot_block n a) (2 * n) n [] (2 ^ n - 1) (2 ^ n - 1) = e.
+Proof. exact crot_rotation_all_n. Qed.
+Print Assumptions C20_crot_rotation_all_n.
+(* not vacuous: five qubits (size beyond the exhaustive proofs), obtained from the theorem *)
+Example C20_crot5_all_ones : forall (R : cring) (a : R),
+  lamp (crot_block 5 a) 10 5 [] 31 31 = kadd k1 (kpow a 5).
+Proof. exact crot5_all_ones. Qed.
+Print Assumptions C20_crot5_all_ones.
